@@ -676,6 +676,10 @@ def qsort_contract(s):
                                                             z3.Select(H2, K) == z3.Select(H, pi(K)),
                                                             z3.Select(I2, K) == z3.Select(I, pi(K))))))
         st.assume(z3.ForAll([K], z3.Implies(inr(K), z3.And(inr(pinv(K)), pi(pinv(K)) == K))))
+        # the same bijection read in the other direction (old element K ends up at position pinv(K)); implied by the
+        # two facts above, stated separately because it gives the solver usable instantiation patterns
+        st.assume(z3.ForAll([K], z3.Implies(inr(K), z3.And(inr(pinv(K)), z3.Select(H2, pinv(K)) == z3.Select(H, K),
+                                                            z3.Select(I2, pinv(K)) == z3.Select(I, K)))))
         st.assume(z3.ForAll([K], z3.Implies(z3.Not(inr(K)), z3.And(z3.Select(H2, K) == z3.Select(H, K), z3.Select(I2, K) == z3.Select(I, K)))))
         st.assume(z3.ForAll([a, b], z3.Implies(z3.And(0 <= a, a <= b, b < cnt), z3.Select(H2, a) <= z3.Select(H2, b))))
         o.leaves[("hash",)], o.leaves[("index",)] = H2, I2
@@ -698,7 +702,8 @@ def update_setup(v, s, j0):
         return [
             ("range", z3.And(0 <= i, i <= s.N, 0 <= nh, nh <= i, nh <= nal, nal == ln, -1 <= zh, zh < nh)),
             ("no_zero_hash_seen", z3.Implies(zh == -1, z3.ForAll([K], z3.Implies(z3.And(0 <= K, K < i), z3.Select(Ph, K) != 0)))),
-            ("zero_entry", z3.Implies(zh >= 0, z3.Select(H, zh) == 0)),
+            ("all_hashed_until_first_zero", z3.Implies(zh == -1, nh == i)),
+            ("zero_entry_unique", z3.ForAll([K], z3.Implies(z3.And(0 <= K, K < nh), (z3.Select(H, K) == 0) == (K == zh)))),
             ("zero_entry_is_last_zero_hash_particle", z3.Implies(zh >= 0, z3.ForAll([K], z3.Implies(
                 z3.And(z3.Select(I, zh) < K, K < i), z3.Select(Ph, K) != 0)))),
             ("entries_consistent", z3.ForAll([K], z3.Implies(z3.And(0 <= K, K < nh), z3.And(
@@ -770,6 +775,198 @@ def _(v):
     """N == 0 (possibly particles == NULL): N_lookup becomes 0, nothing is dereferenced"""
     s = mk_lookup(v, mk_sim(v, null_particles=True))
     v.assume(s.N == 0)
-    update_setup(v, s, z3.IntVal(0))
+    v.contract("qsort", qsort_contract(s))       # the loop `for(i=0;i<N;..)` does not iterate: decided by the solver
     v.call(UPDATE, s.rp)
     v.prove("N_lookup_is_0", s.r.N_lookup == 0)
+
+
+# ---- modular layer: reb_simulation_particle_by_hash over the contracts proved above --------------------------------
+def wf_table_cond(s, st):
+    """wf of the lookup table in state st (what search/update may rely on)"""
+    H, I, ln = table_arrays(s, st)
+    eng = s.v.eng
+    nl = eng.read(st, Ptr(s.rp.obj, ("N_lookup",)))
+    nal = eng.read(st, Ptr(s.rp.obj, ("N_allocated_lookup",)))
+    return z3.And(0 <= nl, nl <= nal, nal == ln, z3.ForAll([K], z3.Implies(z3.And(0 <= K, K < nl), z3.Select(I, K) >= 0)))
+
+
+def search_contract(s):
+    """= tasks search_lookup_table.{stale_table,no_table,sorted_table_complete}"""
+    def apply(eng, st, args, n):
+        hsh = as_int(args[1])
+        if table_obj(s, st) is None:
+            return NULL
+        eng.oblige(st, "search.callsite.pre.wf_table", wf_table_cond(s, st), "pre", n)
+        H, I, ln = table_arrays(s, st)
+        nl = eng.read(st, Ptr(s.rp.obj, ("N_lookup",)))
+        nn = eng.read(st, Ptr(s.rp.obj, ("N",)))
+        a, b, m = z3.Ints("a b m")
+        idx = eng.fresh("found_index", z3.IntSort())
+        isnull = eng.fresh("search_returns_NULL", z3.BoolSort())
+        st.assume(z3.Implies(z3.Not(isnull), z3.And(0 <= idx, idx < nn, z3.Exists([m], z3.And(
+            0 <= m, m < nl, z3.Select(H, m) == hsh, z3.Select(I, m) == idx)))))
+        sorted_complete = z3.And(
+            z3.ForAll([a, b], z3.Implies(z3.And(0 <= a, a <= b, b < nl), z3.Select(H, a) <= z3.Select(H, b))),
+            z3.ForAll([K], z3.Implies(z3.And(0 <= K, K < nl), z3.Select(I, K) < nn)))
+        st.assume(z3.Implies(z3.And(sorted_complete, isnull),
+                             z3.ForAll([K], z3.Implies(z3.And(0 <= K, K < nl), z3.Select(H, K) != hsh))))
+        if s.parts is None:
+            st.assume(isnull)
+            return NULL
+        return Ptr(s.pid, (idx,), isnull)
+    return apply
+
+
+def havoc_table(s, eng, st):
+    """r->particle_lookup_table := some heap block of N_allocated_lookup' >= N_lookup' >= 0 entries with unknown content"""
+    rid = s.rp.obj
+    ln2 = eng.fresh("len_T_new", z3.IntSort())
+    t2 = eng.new_array(eng.ctype(PAIR), ln2, "Tnew%d" % next(eng.fresh_n), force_sym=True)
+    st.mem.add(t2)
+    eng.heap_set(st, t2.id, owner="callee", kind="heap")
+    robj = st.mem.objs[rid]
+    nl2 = eng.fresh("N_lookup_new", z3.IntSort())
+    robj.fields["particle_lookup_table"] = Ptr(t2.id, (z3.IntVal(0),), False)
+    robj.fields["N_lookup"] = nl2
+    robj.fields["N_allocated_lookup"] = ln2
+    st.assume(z3.And(0 <= nl2, nl2 <= ln2))
+    return nl2, ln2, eng._leaf_array(t2, ("hash",)), eng._leaf_array(t2, ("index",))
+
+
+def update_contract(s):
+    """= tasks update_lookup_table.{rebuild,first_build,empty_simulation}"""
+    def apply(eng, st, args, n):
+        rid = s.rp.obj
+        if table_obj(s, st) is not None:
+            H, I, ln = table_arrays(s, st)
+            nl = eng.read(st, Ptr(rid, ("N_lookup",)))
+            nal = eng.read(st, Ptr(rid, ("N_allocated_lookup",)))
+            eng.oblige(st, "update.callsite.pre.table_block", z3.And(0 <= nl, nl <= nal, nal == ln), "pre", n)
+        else:
+            eng.oblige(st, "update.callsite.pre.no_table", eng.read(st, Ptr(rid, ("N_allocated_lookup",))) == 0, "pre", n)
+        nl2, ln2, H2, I2 = havoc_table(s, eng, st)
+        nn = eng.read(st, Ptr(rid, ("N",)))
+        st.assume(nl2 <= nn)
+        if s.parts is None:
+            st.assume(nl2 == 0)
+            return None
+        Ph = cur_arrays(s, st)[("hash",)]
+        a, b, m, j = z3.Ints("a b m j")
+        st.assume(z3.ForAll([K], z3.Implies(z3.And(0 <= K, K < nl2), z3.And(
+            0 <= z3.Select(I2, K), z3.Select(I2, K) < nn, z3.Select(H2, K) == z3.Select(Ph, z3.Select(I2, K))))))
+        st.assume(z3.ForAll([j], z3.Implies(z3.And(0 <= j, j < nn), z3.Exists([m], z3.And(0 <= m, m < nl2, z3.Select(H2, m) == z3.Select(Ph, j))))))
+        st.assume(z3.ForAll([a, b], z3.Implies(z3.And(0 <= a, a <= b, b < nl2), z3.Select(H2, a) <= z3.Select(H2, b))))
+        return None
+    return apply
+
+
+def byhash_post(v, s, ret, Ph, hsh, tag=""):
+    if isinstance(ret, Ptr) and ret.obj is None:
+        # NULL on this path
+        v.prove(tag + "null_only_if_no_particle_has_hash", z3.ForAll([K], z3.Implies(z3.And(0 <= K, K < s.N), z3.Select(Ph, K) != hsh)))
+        return
+    v.ground(tag + "points_into_particle_storage", isinstance(ret, Ptr) and ret.obj == s.pid and len(ret.path) == 1)
+    idx = as_int(ret.path[-1])
+    nn = as_bool_null(ret)
+    v.prove(tag + "found.inside_view", z3.Implies(z3.Not(nn), z3.And(0 <= idx, idx < s.N)))
+    v.prove(tag + "found.carries_hash", z3.Implies(z3.Not(nn), z3.Select(Ph, idx) == hsh))
+    v.prove(tag + "null_only_if_no_particle_has_hash", z3.Implies(nn, z3.ForAll([K], z3.Implies(z3.And(0 <= K, K < s.N), z3.Select(Ph, K) != hsh))))
+
+
+def gen_byhash(null_table):
+    @P.task("particle_by_hash.%s" % ("no_table_yet" if null_table else "arbitrary_stale_table"), fn=BYHASH)
+    def _(v):
+        """For ANY table content allowed by wf: the result is a particle of particles[0..N) carrying the hash, or NULL and
+        then no particle carries it.  Particles untouched, table wf afterwards."""
+        s = mk_lookup(v, mk_sim(v), null_table=null_table)
+        Ph = s.old[("hash",)]
+        v.assume(z3.ForAll([K], z3.And(0 <= z3.Select(Ph, K), z3.Select(Ph, K) < U32)))
+        v.contract(SEARCH, search_contract(s))
+        v.contract(UPDATE, update_contract(s))
+        ret = v.call(BYHASH, s.rp, s.hash)
+        prune_if_infeasible(v)
+        byhash_post(v, s, ret, Ph, s.hash)
+        prove_unchanged(v, s)
+        if table_obj(s) is not None:
+            v.prove("wf_table_afterwards", wf_table_cond(s, v.st))
+
+
+gen_byhash(False)
+gen_byhash(True)
+
+
+@P.task("particle_by_hash.empty_unallocated_simulation", fn=BYHASH)
+def _(v):
+    s = mk_lookup(v, mk_sim(v, null_particles=True))
+    v.contract(SEARCH, search_contract(s))
+    v.contract(UPDATE, update_contract(s))
+    ret = v.call(BYHASH, s.rp, s.hash)
+    prune_if_infeasible(v)
+    v.ground("returns_NULL", isinstance(ret, Ptr) and (ret.obj is None or ret.null is True))
+
+
+REMOVE_BY_HASH = "reb_simulation_remove_particle_by_hash"
+
+
+def byhash_contract(s, Ph):
+    """= tasks particle_by_hash.*"""
+    def apply(eng, st, args, n):
+        hsh = as_int(args[1])
+        eng.oblige(st, "by_hash.callsite.pre.wf_table", wf_table_cond(s, st) if table_obj(s, st) is not None else
+                   eng.read(st, Ptr(s.rp.obj, ("N_allocated_lookup",))) == 0, "pre", n)
+        nl2, ln2, H2, I2 = havoc_table(s, eng, st)     # the table may or may not have been rebuilt: only wf is known
+        st.assume(z3.ForAll([K], z3.Implies(z3.And(0 <= K, K < nl2), z3.Select(I2, K) >= 0)))
+        idx = eng.fresh("by_hash_index", z3.IntSort())
+        isnull = eng.fresh("by_hash_returns_NULL", z3.BoolSort())
+        nn = eng.read(st, Ptr(s.rp.obj, ("N",)))
+        st.assume(z3.Implies(z3.Not(isnull), z3.And(0 <= idx, idx < nn, z3.Select(Ph, idx) == hsh)))
+        st.assume(z3.Implies(isnull, z3.ForAll([K], z3.Implies(z3.And(0 <= K, K < nn), z3.Select(Ph, K) != hsh))))
+        return Ptr(s.pid, (idx,), isnull)
+    return apply
+
+
+def index_contract(s):
+    """= task particle_index.in_range"""
+    def apply(eng, st, args, n):
+        p = args[0]
+        ok = isinstance(p, Ptr) and p.obj == s.pid and len(p.path) == 1
+        eng.oblige(st, "particle_index.callsite.pre.points_into_storage", z3.BoolVal(ok), "pre", n)
+        k = as_int(p.path[-1])
+        nn = eng.read(st, Ptr(s.rp.obj, ("N",)))
+        sim = cur_arrays(s, st)[("sim",)]
+        eng.oblige(st, "particle_index.callsite.pre.in_view_and_sim_is_r", z3.And(0 <= k, k < nn, z3.Select(sim, k) == s.rid), "pre", n)
+        return k
+    return apply
+
+
+@P.task("remove_particle_by_hash", fn=REMOVE_BY_HASH)
+def _(v):
+    """unknown hash: returns 0, simulation unchanged.  Known hash: exactly one call
+    reb_simulation_remove_particle(r, j, keep_sorted) with 0 <= j < N and particles[j].hash == hash, whose result is
+    returned (the effect of that call is specified by the remove_particle.* tasks)."""
+    s = mk_lookup(v, mk_sim(v))
+    ks = v.int("keep_sorted")
+    Ph = s.old[("hash",)]
+    v.contract(BYHASH, byhash_contract(s, Ph))
+    v.contract(INDEX, index_contract(s))
+    calls = []
+
+    def remove_contract(eng, st, args, n):
+        calls.append(args)
+        eng.oblige(st, "remove.callsite.index_in_view_and_has_hash", z3.And(0 <= as_int(args[1]), as_int(args[1]) < s.N,
+                                                                            z3.Select(Ph, as_int(args[1])) == s.hash), "pre", n)
+        eng.oblige(st, "remove.callsite.keep_sorted_passed_through", as_int(args[2]) == ks, "pre", n)
+        s.remove_ret = eng.fresh("remove_particle_result", z3.IntSort())
+        return s.remove_ret
+    v.contract(REMOVE, remove_contract)
+    ret = v.call(REMOVE_BY_HASH, s.rp, s.hash, ks)
+    prune_if_infeasible(v)
+    absent = z3.ForAll([K], z3.Implies(z3.And(0 <= K, K < s.N), z3.Select(Ph, K) != s.hash))
+    if not calls:
+        v.prove("unknown_hash.returns_0", ret == 0)
+        v.prove("unknown_hash.only_if_absent", absent)
+        prove_unchanged(v, s, "unknown_hash.state_unchanged")
+    else:
+        v.ground("known_hash.single_remove_call", len(calls) == 1)
+        v.prove("known_hash.result_passed_through", ret == s.remove_ret)
+        v.prove("known_hash.only_if_present", z3.Not(absent))
